@@ -51,6 +51,8 @@ def demo(sid, tmp):
 
 def run_one(sid, tier, nproc, all_checks):
     meta = json.load(open(os.path.join(SEEDED, sid, 'meta.json')))
+    if meta.get('obsolete'):
+        return {'id': sid, 'property': meta['property'], 'tier': tier, 'status': 'OBSOLETE', 'detail': meta['obsolete']}
     tmp = tempfile.mkdtemp(prefix='vfseed_')
     try:
         err = apply_patch(sid, tmp)
@@ -119,7 +121,7 @@ def main():
     old = json.load(open(path)) if os.path.exists(path) else []
     keep = [r for r in old if (r['id'], r.get('tier')) not in {(x['id'], x.get('tier')) for x in out}]
     json.dump(sorted(keep + out, key=lambda r: (r['id'], r.get('tier') or '')), open(path, 'w'), indent=1)
-    bad = [r for r in out if r['status'] != 'CAUGHT']
+    bad = [r for r in out if r['status'] not in ('CAUGHT', 'OBSOLETE')]
     print('%d seeded changes, %d caught, %d not' % (len(out), len(out) - len(bad), len(bad)))
     return 1 if bad else 0
 
